@@ -21,7 +21,7 @@ TRUSTED_BASE = [
     "i32 modelled as unbounded Z; integer fragment only: trees containing `/` create float variables and are excluded; float operands not covered",
 ]
 ASSUMPTIONS = [
-    "vocabulary: int/intset/bool variables, integer constants, + - * mod, six comparisons, and/or/not, lin_eq/lin_le/lin_ne, Model::add/sub/mul on variables",
+    "vocabulary: int/intset/bool variables, integer constants, + - * mod, six comparisons, and/or/not, the helpers and_all/or_all/all_of/any_of over a Vec<Constraint>, lin_eq/lin_le/lin_ne, Model::add/sub/mul on variables",
     "known classes (known_findings.txt): or_not, mod_rejected (divisor bounds containing 0), lin_zero_coeffs, modulo_prop; "
     "aux_bounds, empty_domain_panic and nested_ne are repaired (fixed: entries)",
     "in-range condition of lower_denotes / spellings_agree (doms_nonempty on the lowered store): no auxiliary variable's computed range "
@@ -176,11 +176,27 @@ def combos(atoms, depth):
     out += ["%s(%s,%s)" % (k, b, a) for k in ("and", "or") for a in sub for b in atoms if a not in atoms]
     return out
 
+def nary_combos(tier, rng):
+    """and_all / or_all / all_of / any_of over 0..3 members (0: the helper returns None and nothing is posted), also nested"""
+    out = []
+    for k in NARY:
+        out.append("%s()" % k)
+        out += ["%s(%s)" % (k, a) for a in ATOMS]
+        pairs = [(a, b) for a in ATOMS for b in ATOMS]
+        trip = [(a, b, c) for a in ATOMS[:10] for b in ATOMS[:10] for c in ATOMS[:10]]
+        if tier == "quick":
+            pairs = rng.sample(pairs, 120); trip = rng.sample(trip, 150)
+        out += ["%s(%s,%s)" % (k, a, b) for a, b in pairs]
+        out += ["%s(%s,%s,%s)" % (k, a, b, c) for a, b, c in trip]
+        out += ["%s(%s,%s(%s,%s))" % (k, a, k2, b, c) for k2 in NARY for a, b, c in rng.sample(trip, 12)]
+        out += ["and(%s(%s,%s),%s)" % (k, a, b, c) for a, b, c in rng.sample(trip, 12)] + ["not(%s(%s,%s,%s))" % (k, a, b, c) for a, b, c in rng.sample(trip, 6)]
+    return out
+
 def gen_comb_exhaustive(tier, rng):
     cs = combos(ATOMS, 1)
     c2 = combos(ATOMS[:8], 2)
     if tier == "quick": c2 = rng.sample(c2, min(len(c2), 2500))
-    return ["0..3|1..3 ; new %s" % c for c in cs + c2]
+    return ["0..3|1..3 ; new %s" % c for c in cs + c2 + nary_combos(tier, rng)]
 
 def to_msolve(gen, quick_n, entries=("enum",)):
     def g(tier, rng):
@@ -216,9 +232,18 @@ def rand_expr(rng, nv, depth, modw=0.12, big=False):
     op = "mod" if r < modw else rng.choice(["add", "sub", "mul", "add", "sub"])
     return "%s(%s,%s)" % (op, rand_expr(rng, nv, depth - 1, modw, big), rand_expr(rng, nv, depth - 1, modw, big))
 
+NARY = ("andall", "orall", "allof", "anyof")
+
 def rand_cons(rng, nv, edepth, cdepth, logic=0.25, **kw):
     if cdepth > 0 and rng.random() < logic:
-        k = rng.choice(["and", "and", "or", "not"])
+        k = rng.choice(["and", "and", "or", "not", "andall", "orall", "allof", "anyof"])
+        if k in NARY:
+            # the helpers over a Vec<Constraint>: and_all / or_all / all_of / any_of, 1..3 members (0 members: None, top level only)
+            n = rng.choice([1, 2, 2, 3, 3])
+            if k in ("orall", "anyof") and n == 2 and rng.random() < 0.4:
+                v = rng.randrange(nv)
+                return "%s(eq(x%d,%d),eq(x%d,%d))" % (k, v, rng.randint(-3, 4), v, rng.randint(-3, 4))
+            return "%s(%s)" % (k, ",".join(rand_cons(rng, nv, edepth, cdepth - 1, logic, **kw) for _ in range(n)))
         if k == "not": return "not(%s)" % rand_cons(rng, nv, edepth, cdepth - 1, logic, **kw)
         if k == "or" and rng.random() < 0.4:
             v = rng.randrange(nv)
@@ -268,8 +293,9 @@ def _cons_ranges(s, env, widths):
     s = s.strip()
     h = s[:s.index("(")]
     args = _split_top(s[s.index("(") + 1:-1])
-    if h in ("and", "or", "not"):
-        for a in args: _cons_ranges(a, env, widths)
+    if h in ("and", "or", "not") + NARY:
+        for a in args:
+            if a.strip(): _cons_ranges(a, env, widths)
     else:
         for a in args: _ival(a, env, widths)
 
@@ -380,7 +406,9 @@ def gen_spellings(tier, rng):
         cases.append(doms + " ; new lt(x0,x1) ;; new gt(x1,x0) ;; new le(add(x0,1),x1) ;; lin le 1,-1 x0,x1 -1 ;; P: lt x0 x1 ;; new and(le(x0,x1),lt(x0,x1))")
         c = rng.randint(-3, 4)
         cases.append(doms + " ; new eq(x0,%d) ;; new eq(%d,x0) ;; lin eq 1 x0 %d ;; new eq(add(x0,0),%d) ;; new and(le(x0,%d),ge(x0,%d)) ;; P: eq x0 c:%d" % (c, c, c, c, c, c, c))
-        cases.append(doms + " ; new eq(x0,x1) ;; new eq(sub(x0,x1),0) ;; lin eq 1,-1 x0,x1 0 ;; new and(le(x0,x1),ge(x0,x1)) ;; P: eq x0 x1")
+        cases.append(doms + " ; new eq(x0,x1) ;; new eq(sub(x0,x1),0) ;; lin eq 1,-1 x0,x1 0 ;; new and(le(x0,x1),ge(x0,x1)) ;; P: eq x0 x1 ;; new andall(le(x0,x1),ge(x0,x1)) ;; new allof(le(x0,x1),ge(x0,x1),eq(x1,x0))")
+        cases.append(doms + " ; new and(and(le(x0,x1),lt(x1,x2)),ne(x0,%d)) ;; new andall(le(x0,x1),lt(x1,x2),ne(x0,%d)) ;; new allof(le(x0,x1),allof(lt(x1,x2)),ne(x0,%d)) ;; new le(x0,x1) ; new lt(x1,x2) ; new ne(x0,%d)" % (c, c, c, c))
+        cases.append(doms + " ; new or(eq(x0,%d),eq(x0,1)) ;; new orall(eq(x0,%d),eq(x0,1)) ;; new anyof(eq(x0,%d),eq(x0,1))" % (c, c, c))
     return cases
 
 FAMILIES = [
